@@ -126,6 +126,7 @@ pub fn arg_string(max_len: usize) -> impl Strategy<Value = String> {
         8 => prop::collection::vec(class_char(), 1..8usize).prop_map(|v| v.into_iter().collect()),
         3 => prop::collection::vec(class_char(), 1..=max_len.max(2)).prop_map(|v| v.into_iter().collect()),
         1 => "[a-z]{1,12}",
+        1 => (0..crate::props::c15::ODD_STRINGS.len()).prop_map(|i| crate::props::c15::ODD_STRINGS[i].to_string()),
     ]
 }
 
